@@ -62,6 +62,10 @@ type Universe struct {
 	// Gate, if set, is called outside the simulator lock at the entry of every SyncPropose, SyncRead and
 	// StaleRead; the harness may park the calling goroutine there (token hand-over point).
 	Gate func(kind, raftAddress string, shardID uint64, payload any)
+	// GoID, if set, returns the id of the calling goroutine (harness-provided; makes StaleRead callable from
+	// inside state machine callbacks).
+	GoID    func() uint64
+	smOwner uint64
 	// Yield, if set, is called outside the simulator lock at the entry of every SyncPropose, SyncRead and
 	// StaleRead: where the real library would make the caller wait, the harness may let another goroutine run.
 	Yield func()
@@ -298,6 +302,23 @@ func guard(f func()) (pv any) {
 	return nil
 }
 
+// guard runs a state machine callback (the simulator lock is held) and remembers which goroutine is inside
+// it: the real library lets a state machine read other shards (StaleRead) from its callbacks, which here
+// would be a second acquisition of the same lock.
+func (u *Universe) guard(f func()) (pv any) {
+	if u.GoID != nil {
+		prev := u.smOwner
+		u.smOwner = u.GoID()
+		defer func() { u.smOwner = prev }()
+	}
+	return guard(f)
+}
+
+// nested reports whether the caller is inside a state machine callback run by the simulator.
+func (u *Universe) nested() bool {
+	return u.GoID != nil && u.smOwner != 0 && u.smOwner == u.GoID()
+}
+
 // applyLocked brings a replica up to index upTo (bounded by the log). It installs a snapshot
 // first when the entries it needs are compacted at the leader.
 func (u *Universe) applyLocked(r *Replica, upTo uint64) error {
@@ -345,7 +366,7 @@ func (u *Universe) applyLocked(r *Replica, upTo uint64) error {
 		}
 		var res []sm.Entry
 		var err error
-		pv := guard(func() {
+		pv := u.guard(func() {
 			if r.disk != nil {
 				res, err = r.disk.Update(batch)
 			} else {
@@ -385,14 +406,14 @@ func (u *Universe) snapshotLocked(r *Replica) {
 	r.sinceSnapshot = 0
 	if r.disk != nil {
 		var err error
-		if pv := guard(func() { err = r.disk.Sync() }); pv != nil || err != nil {
+		if pv := u.guard(func() { err = r.disk.Sync() }); pv != nil || err != nil {
 			u.fatal(r, "Sync failed", fmt.Sprint(err, pv))
 			return
 		}
 	} else {
 		var buf bytes.Buffer
 		var err error
-		pv := guard(func() {
+		pv := u.guard(func() {
 			var ctx any
 			ctx, err = r.conc.PrepareSnapshot()
 			if err == nil {
@@ -435,7 +456,7 @@ func (u *Universe) installSnapshotLocked(donor, r *Replica) error {
 	var buf bytes.Buffer
 	var err error
 	at := donor.applied
-	pv := guard(func() {
+	pv := u.guard(func() {
 		var ctx any
 		if donor.disk != nil {
 			ctx, err = donor.disk.PrepareSnapshot()
@@ -454,7 +475,7 @@ func (u *Universe) installSnapshotLocked(donor, r *Replica) error {
 		return ErrShardNotReady
 	}
 	image := append([]byte(nil), buf.Bytes()...)
-	pv = guard(func() {
+	pv = u.guard(func() {
 		if r.disk != nil {
 			err = r.disk.RecoverFromSnapshot(&buf, r.stopc)
 		} else {
